@@ -1391,8 +1391,9 @@ class Model:
         of a distribution node is a :Class:`.VarValue` node, the value of its input is
         updated.
         """
-        # any iterable is accepted, also one that can be consumed only once
-        skip = tuple(skip)
+        # any iterable is accepted, also one that can be consumed only once;
+        # a single name may be given as a string
+        skip = (skip,) if isinstance(skip, str) else tuple(skip)
 
         dists = [
             node
